@@ -128,6 +128,16 @@ func (c *Ctx) HandlerSignature(prop string) {
 					fname := fieldNameOf(fa)
 					isSig := fname == "Signature"
 					isSuccState := fname == "State" && an.IsConstInt(st.Val, pbSucc)
+					if fname == "State" {
+						if _, isConst := st.Val.(*ssa.Const); !isConst {
+							// the state is computed: accepted when it is translate(result of the same position), where translate
+							// yields SUCCEEDED exactly for ResultSucceeded
+							if !c.mappedStateStore(rule, st, fa, resV, batch, succ, pbSucc) {
+								bad++
+							}
+							continue
+						}
+					}
 					if !isSig && !isSuccState {
 						continue
 					}
@@ -206,6 +216,25 @@ func (c *Ctx) HandlerSignature(prop string) {
 								}
 							}
 						}
+						// or: a dominating store of translate(result) into the same response (validated above: the translation of
+						// ResultSucceeded is SUCCEEDED, and the signature store sits below [result == ResultSucceeded])
+						for _, b2 := range H.Blocks {
+							if paired || !(b2 == b || b2.Dominates(b)) {
+								continue
+							}
+							for _, i2 := range b2.Instrs {
+								s2, ok := i2.(*ssa.Store)
+								if !ok || (b2 == b && an.InstrPos(s2) > an.InstrPos(st)) {
+									continue
+								}
+								if _, isConst := s2.Val.(*ssa.Const); isConst {
+									continue
+								}
+								if fa2, ok := s2.Addr.(*ssa.FieldAddr); ok && namedIs(fa2.X.Type(), pkgPB, "SignResponse") && fieldNameOf(fa2) == "State" && an.Term(fa2.X) == an.Term(fa.X) && c.stateTranslation(s2, resV, batch, succ, pbSucc) == "" {
+									paired = true
+								}
+							}
+						}
 						if !paired {
 							bad++
 							c.R.Fail(rule, Fn(H)+":pair", c.Pos(st), "a signature is set without state SUCCEEDED on the same response", "Signature and State=SUCCEEDED are set together", nil)
@@ -223,4 +252,103 @@ func (c *Ctx) HandlerSignature(prop string) {
 		}
 	}
 	c.R.Floor(rule, "signer handlers", n, 5)
+}
+
+// stateTranslation validates a store `response.State = v` with a computed v: v is (the first result of) a module function
+// applied to the service's result for the same position, and that function returns SUCCEEDED exactly for ResultSucceeded.
+// It returns "" when the store is understood and safe, else the reason.
+func (c *Ctx) stateTranslation(st *ssa.Store, resV ssa.Value, batch bool, succ, pbSucc int64) string {
+	fa := st.Addr.(*ssa.FieldAddr)
+	v := st.Val
+	if ex, ok := v.(*ssa.Extract); ok {
+		if ex.Index != 0 {
+			return "the state is not the first result of a translation function"
+		}
+		v = ex.Tuple
+	}
+	call, ok := v.(*ssa.Call)
+	if !ok || call.Common().IsInvoke() || call.Common().StaticCallee() == nil {
+		return "the state written is neither a constant nor the result of a translation function: " + an.Term(st.Val)
+	}
+	f := call.Common().StaticCallee()
+	if !prog.InModule(f) || f.Blocks == nil {
+		return "the translation function is outside the module"
+	}
+	ai := -1
+	for i, a := range call.Common().Args {
+		if !batch && a == resV {
+			ai = i
+		}
+		if batch {
+			if root, idx, ok := elemLoad(a); ok && root == resV {
+				_, ridx, ok2 := elemLoad(fa.X)
+				if !ok2 || ridx != idx {
+					return "the state of response j is computed from result i"
+				}
+				ai = i
+			}
+		}
+	}
+	if ai < 0 || ai >= len(f.Params) {
+		return "the translation function is not applied to the service's result for this position"
+	}
+	p := f.Params[ai]
+	isP := func(v ssa.Value) bool { return v == ssa.Value(p) }
+	resOf := func(r *ssa.Return) ssa.Value {
+		if len(r.Results) == 0 {
+			return nil
+		}
+		return an.Result(r, 0)
+	}
+	for _, r := range an.Returns(f) {
+		if _, isConst := resOf(r).(*ssa.Const); !isConst {
+			return "the translation function returns a computed state"
+		}
+	}
+	// (a) under [p == ResultSucceeded] every return yields SUCCEEDED
+	x, _ := an.Cut(an.CutQuery{From: an.Entry(f), Target: func(i ssa.Instruction) bool {
+		r, ok := i.(*ssa.Return)
+		return ok && !an.IsConstInt(resOf(r), pbSucc)
+	}, AcceptEdge: func(b *ssa.BasicBlock, i int, a *an.Atom) bool {
+		if a == nil {
+			return false
+		}
+		for _, side := range [][2]ssa.Value{{a.LV, a.RV}, {a.RV, a.LV}} {
+			if !isP(side[0]) {
+				continue
+			}
+			if a.Op == "!=" && an.IsConstInt(side[1], succ) {
+				return true
+			}
+			if k, isC := side[1].(*ssa.Const); isC && a.Op == "==" && !an.IsConstInt(k, succ) {
+				return true
+			}
+		}
+		return false
+	}})
+	if x != nil {
+		return "the translation of ResultSucceeded is not always SUCCEEDED"
+	}
+	// (b) SUCCEEDED is returned only below [p == ResultSucceeded]
+	x, _ = an.Cut(an.CutQuery{From: an.Entry(f), Target: func(i ssa.Instruction) bool {
+		r, ok := i.(*ssa.Return)
+		return ok && an.IsConstInt(resOf(r), pbSucc)
+	}, AcceptEdge: func(b *ssa.BasicBlock, i int, a *an.Atom) bool {
+		if a == nil || a.Op != "==" {
+			return false
+		}
+		return (isP(a.LV) && an.IsConstInt(a.RV, succ)) || (isP(a.RV) && an.IsConstInt(a.LV, succ))
+	}})
+	if x != nil {
+		return "the translation function yields SUCCEEDED for a result other than ResultSucceeded"
+	}
+	return ""
+}
+
+func (c *Ctx) mappedStateStore(rule string, st *ssa.Store, fa *ssa.FieldAddr, resV ssa.Value, batch bool, succ, pbSucc int64) bool {
+	if why := c.stateTranslation(st, resV, batch, succ, pbSucc); why != "" {
+		c.R.Fail(rule, Fn(st.Parent())+":State", c.Pos(st), why, "State = constant, or translate(result of the same position) with translate(r) == SUCCEEDED iff r == ResultSucceeded", nil)
+		return false
+	}
+	return true
 }
